@@ -288,3 +288,114 @@ func stripLoads(v ssa.Value) ssa.Value {
 		return v
 	}
 }
+
+// LockLeaks finds returns of fn at which a mutex may still be held although no
+// deferred unlock for it is registered on every path (acquire without release).
+func (e *Eng) LockLeaks(fn *ssa.Function) []struct {
+	Ret  *ssa.Return
+	Lock string
+} {
+	type st struct {
+		may lockset // may be held
+		def lockset // deferred unlock registered on every path
+	}
+	in := map[int]*st{}
+	var out []struct {
+		Ret  *ssa.Return
+		Lock string
+	}
+	if len(fn.Blocks) == 0 {
+		return out
+	}
+	union := func(a, b lockset) lockset {
+		m := a.clone()
+		for k, v := range b {
+			m[k] = v
+		}
+		return m
+	}
+	transfer := func(b *ssa.BasicBlock, s *st, report bool) *st {
+		cur := &st{s.may.clone(), s.def.clone()}
+		for _, ins := range b.Instrs {
+			if lk, op := e.lockOp(ins); op != "" {
+				switch op {
+				case "W", "R":
+					cur.may[lk] = op[0]
+				case "U":
+					delete(cur.may, lk)
+				}
+			}
+			if d, ok := ins.(*ssa.Defer); ok {
+				cn := calleeName(&d.Call)
+				if (cn == "(*sync.Mutex).Unlock" || cn == "(*sync.RWMutex).Unlock" || cn == "(*sync.RWMutex).RUnlock") && len(d.Call.Args) > 0 {
+					cur.def[e.X(fn, d.Call.Args[0])] = 'U'
+				}
+				// deferred literal that unlocks
+				if mc, ok := d.Call.Value.(*ssa.MakeClosure); ok {
+					lf := mc.Fn.(*ssa.Function)
+					for _, x := range AllInstrs(lf) {
+						if lk, op := e.lockOp(x); op == "U" {
+							cur.def[strings.TrimPrefix(lk, "^")] = 'U'
+						}
+					}
+				}
+			}
+			if ret, ok := ins.(*ssa.Return); ok && report {
+				for lk := range cur.may {
+					if _, ok := cur.def[lk]; !ok {
+						out = append(out, struct {
+							Ret  *ssa.Return
+							Lock string
+						}{ret, lk})
+					}
+				}
+			}
+		}
+		return cur
+	}
+	in[0] = &st{lockset{}, lockset{}}
+	outS := map[int]*st{}
+	for iter := 0; iter < 50; iter++ {
+		changed := false
+		for _, b := range fn.Blocks {
+			if b.Index != 0 {
+				var s *st
+				for _, p := range b.Preds {
+					o, ok := outS[p.Index]
+					if !ok {
+						continue
+					}
+					if s == nil {
+						s = &st{o.may.clone(), o.def.clone()}
+					} else {
+						s.may = union(s.may, o.may)
+						s.def = meet(s.def, o.def)
+					}
+				}
+				if s == nil {
+					continue
+				}
+				if old, ok := in[b.Index]; !ok || !eqLS(old.may, s.may) || !eqLS(old.def, s.def) {
+					in[b.Index] = s
+					changed = true
+				}
+			}
+			if s, ok := in[b.Index]; ok {
+				o := transfer(b, s, false)
+				if old, ok := outS[b.Index]; !ok || !eqLS(old.may, o.may) || !eqLS(old.def, o.def) {
+					outS[b.Index] = o
+					changed = true
+				}
+			}
+		}
+		if !changed {
+			break
+		}
+	}
+	for _, b := range fn.Blocks {
+		if s, ok := in[b.Index]; ok {
+			transfer(b, s, true)
+		}
+	}
+	return out
+}
